@@ -5,7 +5,7 @@
    usage: h_leak <stream-file> <result-file> [first-index]
    stream-file:  records  "S <index> <nbytes> <run:0|1> <steps> <mem> <stack>\n" + nbytes of source + "\n"
                  or       "H <index> <n>\n" = API history with n steps, each step one line:
-                          "new <slot>" | "compile <slot> <nbytes>\n<bytes>" | "prepare <slot> <entry> [int args..]" |
+                          "new <slot>" | "compile <slot> <nbytes>\n<bytes>" | "prepare <slot> <entry> [int args..]" | "prepareargv <slot> <entry> <argc>" |
                           "vmnew <slot> <mem> <stack>" | "exec <pslot> <vslot>" | "vmdel <slot>" | "del <slot>"
    result-file:  one line per record "r <index> compile=<rc> msgs=<n> prepare=<rc> exec=<rc> steps=<n> leak=<0|1> leaked=<blocks>"
                  followed by one line "l <index> <bytes> <ra0> <ra1> <ra2>" per block that libnev allocated while
@@ -261,6 +261,13 @@ int main(int argc, char ** argv)
                     sscanf(head, "%*s %ld %63s %d %d %d %d", &a, name, &v[0], &v[1], &v[2], &v[3]);
                     rc = nev_prepare(P[a], name);
                     if (rc == 0) for (i = 0; i < P[a]->params_count && i < 4; i++) if (P[a]->params[i].type == OBJECT_INT) P[a]->params[i].int_value = v[i];
+                }
+                else if (!strcmp(op, "prepareargv"))
+                {
+                    /* the command-line entry: main(argv[argc] : string) / main(a : int, ...) filled from strings */
+                    static char * av[4] = { "1", "2", "3", "4" };
+                    sscanf(head, "%*s %ld %63s %ld", &a, name, &b);
+                    rc = nev_prepare_argc_argv(P[a], name, (unsigned int)(b < 0 ? 0 : (b > 4 ? 4 : b)), av);
                 }
                 else if (!strcmp(op, "vmnew")) { sscanf(head, "%*s %ld %ld %ld", &a, &b, &c); V[a] = vm_new(b, c); }
                 else if (!strcmp(op, "exec"))
